@@ -245,6 +245,9 @@ func (c *Check) Finish() {
 	for _, s := range c.vorder {
 		v := c.violations[s]
 		dir := filepath.Join(Root, "replays", c.ID)
+		if d := os.Getenv("VERIF_EVIDENCE_DIR"); d != "" {
+			dir = filepath.Join(d, "replays", c.ID)
+		}
 		os.MkdirAll(dir, 0o755)
 		hs := sha256.Sum256([]byte(s))
 		v.Path = filepath.Join(dir, hex.EncodeToString(hs[:6])+".json")
@@ -282,8 +285,12 @@ func (c *Check) Finish() {
 		ev["assumptions"] = []string{}
 	}
 	b, _ := json.MarshalIndent(ev, "", " ")
-	os.MkdirAll(filepath.Join(Root, "evidence"), 0o755)
-	if err := os.WriteFile(filepath.Join(Root, "evidence", c.ID+".json"), b, 0o644); err != nil {
+	evdir := filepath.Join(Root, "evidence")
+	if d := os.Getenv("VERIF_EVIDENCE_DIR"); d != "" {
+		evdir = d
+	}
+	os.MkdirAll(evdir, 0o755)
+	if err := os.WriteFile(filepath.Join(evdir, c.ID+".json"), b, 0o644); err != nil {
 		Fatalf("write evidence: %v", err)
 	}
 	fmt.Printf("%s %s: evaluations=%d distinct=%d outcomes=%d transitions=%d validated=%d invalid_skipped=%d exhaustive=%v known=%d violations=%d wall=%.1fs\n",
@@ -391,4 +398,21 @@ func Trunc(s string, n int) string {
 		return s
 	}
 	return s[:n] + "…"
+}
+
+// LibraryFrame returns the first github.com/llir/llvm function named in a debug.Stack() dump, or "".
+func LibraryFrame(stack string) string {
+	for _, ln := range strings.Split(stack, "\n") {
+		if strings.HasPrefix(ln, "github.com/llir/llvm/") && !strings.Contains(ln, "/vhook") && !strings.Contains(ln, "/vexport") {
+			fn := ln
+			if i := strings.LastIndex(fn, "("); i > 0 {
+				fn = fn[:i]
+			}
+			if i := strings.LastIndex(fn, "/"); i >= 0 {
+				fn = fn[i+1:]
+			}
+			return fn
+		}
+	}
+	return ""
 }
